@@ -90,3 +90,250 @@ theorem card_flags_add_rank (A : Matrix m n 𝕜) (F : Finset n)
 
 end
 end Gama.LS
+
+namespace Gama.Ls
+open Finset Dn Chol Matrix Gama.LS
+
+set_option linter.unusedSectionVars false
+set_option linter.unusedVariables false
+
+section
+variable {K : Type} [Field K] [LinearOrder K] [IsStrictOrderedRing K] [SqrtFn K]
+attribute [local instance 2000] scalarOfField
+
+/-- the orthonormalised kernel columns `G(·, 1..nullity)` as a matrix (storage order) -/
+def Chol.Solved.Gm (s : Solved K) (n : Nat) : Matrix (Fin n) (Fin s.nullity) K :=
+  Matrix.of fun i c => vget (s.G.getD c.val #[]) i.val
+
+/-- the Gram–Schmidt invariant at the end of the loop, for a solved singular problem -/
+theorem chol_gs_final (p : Problem K) (hU : Chol.UnambiguousF (cholFact p)) (hsq : Chol.GsSqrtExact p)
+    (s : Solved K) (hs : Chol.solve p = .ok s) (hne : s.nullity ≠ 0) :
+    ∃ gpf, GSInv p.m p.n s.nullity p.dense s.S s.x0 s.nullity gpf s.G := by
+  obtain ⟨hm, hn, hA, hperm, hinvp, hmat, hnull, hN0, hx0, hr, hQ, hreg, _, hgs⟩ := solve_shape p s hs
+  have h0 : (cholFact p).nullity ≠ 0 := by rw [← hnull]; exact hne
+  obtain ⟨hloop, hx⟩ := hgs h0
+  have hS := regList_lt p.n p.reg s.S hreg
+  have hinit := chol_gsInv_init p hU s.S
+  rw [← hx0] at hinit
+  obtain ⟨gpf, hfin⟩ := gsLoop_inv hS (cholFact p).nullity 0 _ _ s.G hinit (by omega) (by
+    have := hsq s.S hreg
+    rw [← hx0] at this
+    exact this) hloop
+  rw [← hnull] at hfin
+  exact ⟨gpf, hfin⟩
+
+/-- positions `< nullity` of the final `g_perm` name kernel columns (`x0` stays last) -/
+theorem GSInv.gperm_lt {m n nullity : Nat} {A : DMat K} {S : List Nat} {x0 : Array K} {column : Nat}
+    {gperm : Array Nat} {G : Array (Array K)} (h : GSInv m n nullity A S x0 column gperm G)
+    (l : Nat) (hl : l < nullity) : pget gperm l < nullity := by
+  have h1 := h.perm.lt l (by omega)
+  by_contra hcon
+  have e : pget gperm l = pget gperm nullity := by rw [h.last]; omega
+  have := h.perm.inj l nullity (by omega) (by omega) e
+  omega
+
+/-- every storage index `< nullity` is a position of the final `g_perm` -/
+theorem GSInv.gperm_surj {m n nullity : Nat} {A : DMat K} {S : List Nat} {x0 : Array K} {column : Nat}
+    {gperm : Array Nat} {G : Array (Array K)} (h : GSInv m n nullity A S x0 column gperm G)
+    (c : Nat) (hc : c < nullity) : ∃ l, l < nullity ∧ pget gperm l = c := by
+  obtain ⟨l, hl, e⟩ := h.perm.surj c (by omega)
+  refine ⟨l, ?_, e⟩
+  by_contra hcon
+  have : l = nullity := by omega
+  rw [this, h.last] at e
+  omega
+
+/-- the kernel columns are `S`-orthonormal (by storage index) -/
+theorem chol_G_orthonormal {m n nullity : Nat} {A : DMat K} {S : List Nat} {x0 : Array K}
+    {gperm : Array Nat} {G : Array (Array K)} (h : GSInv m n nullity A S x0 nullity gperm G)
+    (c d : Nat) (hc : c < nullity) (hd : d < nullity) :
+    dotS S (G.getD c #[]) (G.getD d #[]) = if c = d then 1 else 0 := by
+  obtain ⟨l, hl, rfl⟩ := h.gperm_surj c hc
+  obtain ⟨l', hl', rfl⟩ := h.gperm_surj d hd
+  by_cases e : l = l'
+  · subst e; rw [if_pos rfl]; exact h.orthn l hl
+  · rw [if_neg (fun e' => e (h.perm.inj l l' (by omega) (by omega) e'))]
+    exact h.orth l l' hl (by omega) (fun e' => e e'.symm)
+
+/-- `i ∈ p.S` ⇔ the model's `minx.contains` -/
+theorem contains_iff_mem_S (p : Problem K) (S : List Nat) (h : regList p.n p.reg = some S) (i : Fin p.n) :
+    S.contains i.val = true ↔ i ∈ p.S := by
+  rw [mem_S_iff p S h i]; simp
+
+/-- `G_Sᵀ G = 1`: the normalisation `Hᵀ G = 1` of LS8 for `H = G` restricted to the rows in `S` -/
+theorem chol_HtG (p : Problem K) (hU : Chol.UnambiguousF (cholFact p)) (hsq : Chol.GsSqrtExact p)
+    (hnd : ∀ S, regList p.n p.reg = some S → S.Nodup)
+    (s : Solved K) (hs : Chol.solve p = .ok s) (hne : s.nullity ≠ 0) :
+    (restrictS p.S (s.Gm p.n))ᵀ * s.Gm p.n = 1 := by
+  obtain ⟨gpf, hfin⟩ := chol_gs_final p hU hsq s hs hne
+  obtain ⟨_, _, _, _, _, _, _, _, _, _, _, hreg, _, _⟩ := solve_shape p s hs
+  ext c d
+  have e1 : ((restrictS p.S (s.Gm p.n))ᵀ * s.Gm p.n) c d
+      = ((restrictS p.S (s.Gm p.n))ᵀ *ᵥ (fun i => s.Gm p.n i d)) c := rfl
+  rw [e1, restrictS_transpose_mulVec]
+  have e2 : ∑ i ∈ p.S, s.Gm p.n i d * s.Gm p.n i c
+      = ∑ i ∈ p.S, (fun r => vget (s.G.getD c.val #[]) r * vget (s.G.getD d.val #[]) r) i.val :=
+    Finset.sum_congr rfl fun i _ => mul_comm _ _
+  have e3 := sum_S_eq p s.S hreg (hnd s.S hreg)
+    (fun r => vget (s.G.getD c.val #[]) r * vget (s.G.getD d.val #[]) r)
+  rw [e2, e3, ← dotS_eq, chol_G_orthonormal hfin c.val d.val c.isLt d.isLt, Matrix.one_apply]
+  by_cases h : c = d
+  · rw [if_pos h, if_pos (congrArg Fin.val h)]
+  · rw [if_neg h, if_neg (fun e => h (Fin.ext e))]
+
+/-- the model's `T` (`AdjCholDec::T`, `tEntry`) is the `S`-projector `1 − G G_Sᵀ` of LS8 -/
+theorem chol_Tm_eq_sProj (p : Problem K) (s : Solved K) (hs : Chol.solve p = .ok s) :
+    s.Tm p.n = sProj (s.Gm p.n) (restrictS p.S (s.Gm p.n)) := by
+  obtain ⟨_, _, _, _, _, _, _, _, _, _, _, hreg, _, _⟩ := solve_shape p s hs
+  funext i j
+  show tEntry s.S s.G s.nullity i.val j.val = _
+  unfold sProj tEntry
+  rw [Matrix.sub_apply, Matrix.mul_apply, Matrix.one_apply]
+  have hδ : (if i.val = j.val then (Scalar.ofNat 1 : K) else 0) = if i = j then 1 else 0 := by
+    by_cases h : i = j
+    · rw [if_pos h, if_pos (congrArg Fin.val h)]
+      show ((1 : ℕ) : K) = 1
+      exact Nat.cast_one
+    · rw [if_neg h, if_neg (fun e => h (Fin.ext e))]
+  simp only []
+  rw [hδ]
+  by_cases hc : s.S.contains j.val = true
+  · have hj : j ∈ p.S := (contains_iff_mem_S p s.S hreg j).1 hc
+    rw [if_pos hc, subFrom_eq, ← Finset.range_eq_Ico,
+      ← Fin.sum_univ_eq_sum_range (fun c => vget (s.G.getD c #[]) i.val * vget (s.G.getD c #[]) j.val) s.nullity]
+    congr 1
+    refine Finset.sum_congr rfl fun c _ => ?_
+    show _ = s.Gm p.n i c * (if j ∈ p.S then s.Gm p.n j c else 0)
+    rw [if_pos hj]; rfl
+  · have hj : j ∉ p.S := fun h => hc ((contains_iff_mem_S p s.S hreg j).2 h)
+    rw [if_neg hc]
+    have : ∑ c, s.Gm p.n i c * (restrictS p.S (s.Gm p.n))ᵀ c j = 0 :=
+      Finset.sum_eq_zero fun c _ => by
+        show s.Gm p.n i c * (if j ∈ p.S then s.Gm p.n j c else 0) = 0
+        rw [if_neg hj, mul_zero]
+    rw [this, sub_zero]
+
+/-- `q_xx` of a singular problem as a matrix product: `Q = T Q0 Tᵀ` -/
+theorem chol_Qm_eq (p : Problem K) (s : Solved K) (hs : Chol.solve p = .ok s) (hn0 : s.nullity ≠ 0) :
+    s.Qm p.n = s.Tm p.n * s.Q0m p.n * (s.Tm p.n)ᵀ := by
+  obtain ⟨hn, _⟩ := (solve_shape p s hs).2
+  funext i j
+  show s.qxx0 i.val j.val = _
+  unfold Solved.qxx0
+  rw [if_neg hn0, Matrix.mul_apply, sumFrom_eq, ← Finset.range_eq_Ico, hn,
+    ← Fin.sum_univ_eq_sum_range (fun k => sumFrom 0 p.n (fun l => tEntry s.S s.G s.nullity i.val l * sget s.Q0 l k)
+      * tEntry s.S s.G s.nullity j.val k) p.n]
+  refine Finset.sum_congr rfl fun k _ => ?_
+  rw [Matrix.mul_apply, sumFrom_eq, ← Finset.range_eq_Ico,
+    ← Fin.sum_univ_eq_sum_range (fun l => tEntry s.S s.G s.nullity i.val l * sget s.Q0 l k.val) p.n]
+  rfl
+
+/-- **C03 clause 6 (cholesky)**: `Q` belongs to the chosen regularisation — `Q y` is `S`-orthogonal
+    to the kernel of `A` for every `y` -/
+theorem chol_Q_belongs (p : Problem K) (hU : Chol.UnambiguousF (cholFact p)) (hsq : Chol.GsSqrtExact p)
+    (hnd : ∀ S, regList p.n p.reg = some S → S.Nodup)
+    (s : Solved K) (hs : Chol.solve p = .ok s) : BelongsTo p.A p.S (s.Qm p.n) := by
+  intro y g hg
+  obtain ⟨_, _, _, _, _, _, hnull, _, _, _, _, hreg, _, _⟩ := solve_shape p s hs
+  by_cases hn0 : s.nullity = 0
+  · have : g = 0 := cholFact_regular_ker p (by rw [← hnull]; exact hn0) g hg
+    subst this
+    simp
+  · obtain ⟨gpf, hfin⟩ := chol_gs_final p hU hsq s hs hn0
+    have hHG := chol_HtG p hU hsq hnd s hs hn0
+    have hQ : s.Qm p.n = sProj (s.Gm p.n) (restrictS p.S (s.Gm p.n)) * s.Q0m p.n
+        * (sProj (s.Gm p.n) (restrictS p.S (s.Gm p.n)))ᵀ := by
+      rw [chol_Qm_eq p s hs hn0, chol_Tm_eq_sProj p s hs]
+    have key : ∀ c (hc : c < s.nullity),
+        ∑ i ∈ p.S, (s.Qm p.n *ᵥ y) i * vget (s.G.getD c #[]) i.val = 0 := by
+      intro c hc
+      rw [hQ]
+      exact tq0t_mulVec_orth (Q₀ := s.Q0m p.n) p.S rfl hHG y ⟨c, hc⟩
+    have hk : ∀ k, k < p.m → ∑ v ∈ range p.n, mget p.dense k v * extend g v = 0 := by
+      intro k hk
+      rw [← mulVec_extend p g ⟨k, hk⟩, hg]; rfl
+    obtain ⟨γ, hγ⟩ := hfin.span (extend g) hk
+    have e1 : ∀ i ∈ p.S, (s.Qm p.n *ᵥ y) i * g i
+        = ∑ l ∈ range s.nullity, γ l * ((s.Qm p.n *ᵥ y) i * vget (s.G.getD (pget gpf l) #[]) i.val) := by
+      intro i _
+      have : g i = extend g i.val := by unfold extend; rw [dif_pos i.isLt]
+      rw [this, hγ i.val i.isLt, Finset.mul_sum]
+      exact Finset.sum_congr rfl fun l _ => by ring
+    rw [Finset.sum_congr rfl e1, Finset.sum_comm]
+    refine Finset.sum_eq_zero fun l hl => ?_
+    rw [← Finset.mul_sum, key _ (hfin.gperm_lt l (Finset.mem_range.1 hl)), mul_zero]
+
+/-- **C03 clause 2 (cholesky)**: `Q` is positive semi-definite -/
+theorem chol_Q_psd (p : Problem K) (hU : Chol.UnambiguousF (cholFact p)) (hsq : Chol.GsSqrtExact p)
+    (s : Solved K) (hs : Chol.solve p = .ok s) (y : Fin p.n → K) : 0 ≤ y ⬝ᵥ s.Qm p.n *ᵥ y := by
+  obtain ⟨q1, _, q3, _⟩ := chol_Q_spec p hU hsq s hs
+  exact refl_ginv_psd' q1 q3 (gram_psd p.A) y
+
+/-- **C02 clause 1 (cholesky)**: `defect + rank A = n` -/
+theorem chol_defect_rank (p : Problem K) (hU : Chol.UnambiguousF (cholFact p)) (s : Solved K)
+    (hs : Chol.solve p = .ok s) : s.nullity + p.A.rank = p.n := by
+  obtain ⟨_, h2, h3, h4⟩ := chol_lindep_spec p hU s hs
+  have hc := card_flags_add_rank p.A (Finset.univ.filter fun i : Fin p.n => s.lindep0 i.val = true)
+    (fun g hg hz => h3 g hg fun i hi => hz i (Finset.mem_filter.2 ⟨Finset.mem_univ _, hi⟩))
+    (fun i hi => by
+      obtain ⟨g, g1, g2, g3⟩ := h4 i (Finset.mem_filter.1 hi).2
+      exact ⟨g, g1, g2, fun i' hi' hne => g3 i' (Finset.mem_filter.1 hi').2 hne⟩)
+  have hcard : (Finset.univ.filter fun i : Fin p.n => s.lindep0 i.val = true).card
+      = ((range p.n).filter fun i => s.lindep0 i = true).card := by
+    refine Finset.card_bij (fun i _ => i.val) ?_ ?_ ?_
+    · intro i hi
+      exact Finset.mem_filter.2 ⟨Finset.mem_range.2 i.isLt, (Finset.mem_filter.1 hi).2⟩
+    · intro i _ j _ e; exact Fin.ext e
+    · intro r hr
+      obtain ⟨hr1, hr2⟩ := Finset.mem_filter.1 hr
+      exact ⟨⟨r, Finset.mem_range.1 hr1⟩, Finset.mem_filter.2 ⟨Finset.mem_univ _, hr2⟩, rfl⟩
+  rw [hcard, h2, Fintype.card_fin] at hc
+  exact hc
+
+/-! ### the answers of `cholSolve` -/
+
+theorem cholSolve_ok {p : Problem K} {a : Answer K} (h : cholSolve p = .ok a) :
+    ∃ s, Chol.solve p = .ok s ∧ a = s.answer := by
+  unfold cholSolve at h
+  cases hs : Chol.solve p with
+  | error e => rw [hs] at h; simp [Except.map] at h
+  | ok s => rw [hs] at h; exact ⟨s, rfl, (Except.ok.inj h).symm⟩
+
+/-- `q_xx(i,j)` and `q0_xx(i,j)` (1-based) report the entries of `Q` -/
+theorem chol_answer_qxx (p : Problem K) (s : Solved K) (hs : Chol.solve p = .ok s) (i j : Fin p.n) :
+    s.answer.qxx (i + 1) (j + 1) = .ok (s.Qm p.n i j) ∧ s.answer.q0xx (i + 1) (j + 1) = .ok (s.Qm p.n i j) := by
+  obtain ⟨hm, hnn, _⟩ := solve_shape p s hs
+  have hi : s.idx (i.val + 1) = true := by simp [Chol.Solved.idx, hnn]
+  have hj : s.idx (j.val + 1) = true := by simp [Chol.Solved.idx, hnn]
+  have : (if s.idx (i.val + 1) && s.idx (j.val + 1) then
+      Except.ok (s.qxx0 (i.val + 1 - 1) (j.val + 1 - 1)) else Except.error ErrKind.NotModelled)
+      = Except.ok (s.Qm p.n i j) := by
+    rw [hi, hj]; simp [Chol.Solved.Qm]
+  exact ⟨this, this⟩
+
+/-- `q_bb(i,j)` (1-based) reports the entries of `A Q Aᵀ` -/
+theorem chol_answer_qbb (p : Problem K) (hU : Chol.UnambiguousF (cholFact p)) (hsq : Chol.GsSqrtExact p)
+    (s : Solved K) (hs : Chol.solve p = .ok s) (i j : Fin p.m) :
+    s.answer.qbb (i + 1) (j + 1) = .ok ((p.A * s.Qm p.n * p.Aᵀ) i j) := by
+  obtain ⟨hm, hnn, _⟩ := solve_shape p s hs
+  obtain ⟨_, _, _, q4⟩ := chol_Q_spec p hU hsq s hs
+  have hi : s.obs (i.val + 1) = true := by simp [Chol.Solved.obs, hm]
+  have hj : s.obs (j.val + 1) = true := by simp [Chol.Solved.obs, hm]
+  show (if s.obs (i.val + 1) && s.obs (j.val + 1) then
+      Except.ok (s.qbb0 (i.val + 1 - 1) (j.val + 1 - 1)) else Except.error ErrKind.NotModelled) = _
+  rw [hi, hj]
+  simp only [Bool.and_self, if_true, Nat.add_sub_cancel]
+  rw [← q4, chol_qbb0_eq p s hs i j]
+
+/-- **C03 clause 9 (cholesky)**: the redundancy numbers sum to `m − n + defect` -/
+theorem chol_redundancy (p : Problem K) (hU : Chol.UnambiguousF (cholFact p)) (s : Solved K)
+    (hs : Chol.solve p = .ok s) (Q : Matrix (Fin p.n) (Fin p.n) K)
+    (hQ : (p.Aᵀ * p.A) * Q * (p.Aᵀ * p.A) = p.Aᵀ * p.A) :
+    ∑ i, (1 - (p.A * Q * p.Aᵀ) i i) = (p.m : K) - (p.n : K) + (s.nullity : K) := by
+  have h := chol_defect_rank p hU s hs
+  have h' : (p.n : K) = (s.nullity : K) + (p.A.rank : K) := by rw [← Nat.cast_add, h]
+  rw [redundancy_sum hQ, Fintype.card_fin, h']
+  ring
+
+end
+end Gama.Ls
